@@ -44,10 +44,10 @@ def _reserved_all_error(repo: Repo) -> bool:
 
 def _len_ne_guard(s: Site) -> bool:
     for t, pol in s.guards:
-        if not pol:
-            continue
         for sub in ast.walk(t):
-            if isinstance(sub, ast.Compare) and len(sub.ops) == 1 and isinstance(sub.ops[0], ast.NotEq):
+            # `a != b` holding: written so inside a positive guard, or as the (normalised) top-level `a == b` with negative polarity
+            ne = isinstance(sub, ast.Compare) and len(sub.ops) == 1 and ((isinstance(sub.ops[0], ast.NotEq) and pol) or (sub is t and isinstance(sub.ops[0], ast.Eq) and not pol))
+            if ne:
                 sides = [sub.left, sub.comparators[0]]
                 ok = 0
                 for side in sides:
@@ -61,7 +61,7 @@ def _len_ne_guard(s: Site) -> bool:
 
 def _ne_two_values_guard(s: Site) -> bool:
     for t, pol in s.guards:
-        if pol and isinstance(t, ast.Compare) and len(t.ops) == 1 and isinstance(t.ops[0], ast.NotEq):
+        if isinstance(t, ast.Compare) and len(t.ops) == 1 and ((isinstance(t.ops[0], ast.NotEq) and pol) or (isinstance(t.ops[0], ast.Eq) and not pol)):
             if not isinstance(t.left, ast.Constant) and not isinstance(t.comparators[0], ast.Constant):
                 return True
     return False
